@@ -105,11 +105,21 @@ class CallMixin:
         fn = inspect.unwrap(fn)
         h = self.intrinsics.get(fn)
         if h is not None:
-            return h(self, args, kwargs)
+            r = h(self, args, kwargs)
+            if r is not NotImplemented:
+                return r
+        rec = getattr(fn, "_pyvc_rec", None)
+        if rec is not None:
+            r = self.call_recursive(fn, rec, args, kwargs)
+            if r is not NotImplemented:
+                return r
         if self.reg is not None:
             c = self.reg.call_contract(fn, self)
             if c is not None:
                 return self.apply_contract(c, fn, args, kwargs)
+        return self.inline_function(fn, args, kwargs)
+
+    def inline_function(self, fn, args, kwargs):
         if len(self.call_stack) >= self.MAX_INLINE_DEPTH:
             raise Undecided("inline depth exceeded at %s" % fn.__qualname__)
         node = SRC.lookup(fn)
@@ -133,6 +143,70 @@ class CallMixin:
             self.call_stack.pop()
         return None
 
+    # ------------------------------------------------------------------ recursive spec functions
+    def call_recursive(self, fn, rec, args, kwargs):
+        """bounded unfolding of a recursively defined spec function (sound: every unfolding is the
+        definition; the opaque remainder is an uninterpreted application of the same arguments)"""
+        ints = [a for a in args if self.is_int(a) or isinstance(a, SBool)]
+        if (ints and all(not isinstance(a, Sym) for a in ints)) or all(not isinstance(a, (Sym, Ref)) for a in args):
+            return NotImplemented                   # concrete recursion indices: plain execution
+        depth = self.rec_fuel.get(fn, 0)
+        level = rec["fuel"] - depth
+        if level >= 2:
+            self.rec_fuel[fn] = depth + 1
+            try:
+                return self.inline_function(fn, args, kwargs)
+            finally:
+                self.rec_fuel[fn] = depth
+        app = self.opaque_app(fn, rec, args)
+        if level == 1:
+            self.rec_fuel[fn] = depth + 1
+            try:
+                v = self.inline_function(fn, args, kwargs)
+            finally:
+                self.rec_fuel[fn] = depth
+            eq = self.truth(self.compare_vals("Eq", app, v))
+            if eq is False:
+                raise PathEnd()
+            if eq is not True:
+                self.p.assume(eq.t)
+        return app
+
+    def opaque_app(self, fn, rec, args):
+        sorts, terms, tag = [], [], [fn.__module__.split(".")[-1] + "." + fn.__qualname__]
+        for a in args:
+            if isinstance(a, SBool) or isinstance(a, bool):
+                terms.append(self.bt(a))
+            elif self.is_int(a):
+                terms.append(self.it(a))
+            elif is_bytes(a):
+                terms.append(bytes_to_B(a))
+            elif isinstance(a, Ref) and isinstance(self.p.deref(a), HList) and self.p.deref(a).pre is not None \
+                    and not self.p.deref(a).items:
+                terms.append(self.p.deref(a).pre[0])
+                tag.append("len%s" % self.p.deref(a).pre[1].sexpr())
+            elif isinstance(a, (str, type(None))) or callable(a):
+                tag.append(getattr(a, "__qualname__", repr(a)))
+            else:
+                raise Undecided("recursive spec function %s: unsupported argument %r" % (fn.__qualname__, a))
+        ret = rec["returns"]
+        rsort = {"int": z3.IntSort(), "bool": z3.BoolSort()}.get(ret, BSort)
+        f = UF("rec_" + "|".join(tag), *([t.sort() for t in terms] + [rsort]))
+        t = f(*terms)
+        if ret == "int":
+            return SInt(t)
+        if ret == "bool":
+            return SBool(t)
+        if ret.startswith("bytes:"):
+            n = int(ret[6:])
+            self.p.blen[id_key(t)] = n
+            return SBytes([OB(t, n)])
+        lf = UF("reclen_" + "|".join(tag), *([x.sort() for x in terms] + [z3.IntSort()]))
+        n = lf(*terms)
+        self.p.assume(n >= 0)
+        self.p.blen[id_key(t)] = n
+        return SBytes([OB(t, n)])
+
     # ------------------------------------------------------------------ classes
     def instantiate(self, cls, args, kwargs):
         if issubclass(cls, BaseException):
@@ -147,6 +221,18 @@ class CallMixin:
         h = self.intrinsics.get(cls)
         if h is not None:
             return h(self, args, kwargs)
+        new = None
+        for c in cls.__mro__:
+            if c in (object, int):
+                break
+            if "__new__" in vars(c):
+                new = vars(c)["__new__"]
+                break
+        if new is not None:
+            fn = new.__func__ if isinstance(new, staticmethod) else new
+            return self.call_function(fn, [cls] + list(args), kwargs)
+        if issubclass(cls, int):
+            return TInt(cls, self.b_int(args, kwargs))
         r = self.p.alloc(HObj(cls, {}))
         init = inspect.getattr_static(cls, "__init__", None)
         if isinstance(init, types.FunctionType):
@@ -284,6 +370,8 @@ class CallMixin:
         kwd = {k: self.import_value(v) for k, v in (fn.__kwdefaults__ or {}).items()}
         env = self.bind(node, args, kwargs, defaults, kwd)
         env["spec"] = self.reg.spec_module
+        from .verifier import make_native_env
+        env.update(make_native_env(self))
         fr = Frame(env, self.reg.spec_globals, None, "<contract %s>" % c.name)
         caller = self.call_stack[-1].__qualname__ if self.call_stack else "<top>"
         self.prove_all(c.call_requires, fr, "call:%s@%s" % (c.short, caller))
@@ -376,6 +464,8 @@ class CallMixin:
         if not a:
             return 0
         v = a[0]
+        if isinstance(v, TInt):
+            return v.val
         if isinstance(v, (bool,)):
             return int(v)
         if isinstance(v, SBool):
@@ -713,6 +803,8 @@ class CallMixin:
 
     # ------------------------------------------------------------------ builtin methods
     def call_method(self, v, name, args, kwargs):
+        if isinstance(v, TInt):
+            v = v.val
         if isinstance(v, Ref):
             o = self.p.deref(v)
             if isinstance(o, HList):
